@@ -287,10 +287,12 @@ func runWorker(bin, work string, id string, seed uint64, w, n int, extra []strin
 		"VERIF_WORKER="+strconv.Itoa(w),
 		"VERIF_WORKERS="+strconv.Itoa(n),
 		"VERIF_OUT="+outPath,
-		"VERIF_REPLAYS_DIR="+filepath.Join(verifDir, "replays"),
+		"VERIF_REPLAYS_DIR="+filepath.Join(work, "replays"),
 		"GODEBUG=randseednop=0",
-		"GORACE=halt_on_error=0 log_path="+filepath.Join(work, fmt.Sprintf("race-w%d", w)),
+		"VERIF_RACE_LOG="+filepath.Join(work, fmt.Sprintf("race-w%d", w)),
+		"GORACE=halt_on_error=0 log_path="+filepath.Join(work, fmt.Sprintf("race-w%d", w))+" suppress_equal_stacks=0 suppress_equal_addresses=0 exitcode=0",
 	)
+	os.MkdirAll(filepath.Join(work, "replays"), 0o755)
 	if gomaxprocs > 0 {
 		e = append(e, "GOMAXPROCS="+strconv.Itoa(gomaxprocs))
 	}
@@ -343,7 +345,8 @@ func runCheck(id, tier string, seed uint64, workers, runs, ms int, replay, work 
 		cmd.Dir = work
 		resPath := filepath.Join(work, "replay.json")
 		cmd.Env = append(env(), "VERIF_PROP="+id, "VERIF_REPLAY="+replay, "VERIF_OUT="+resPath, "GODEBUG=randseednop=0",
-			"GORACE=halt_on_error=0 log_path="+filepath.Join(work, "race-replay"))
+			"VERIF_RACE_LOG="+filepath.Join(work, "race-replay"),
+			"GORACE=halt_on_error=0 log_path="+filepath.Join(work, "race-replay")+" suppress_equal_stacks=0 suppress_equal_addresses=0 exitcode=0")
 		cmd.Stdout = os.Stdout
 		cmd.Stderr = os.Stderr
 		if err := cmd.Run(); err != nil {
@@ -529,6 +532,24 @@ func runCheck(id, tier string, seed uint64, workers, runs, ms int, replay, work 
 		sigOrder = append(sigOrder, s)
 	}
 	sort.Strings(sigOrder)
+	// keep only the replay files that are reported (one per signature), under /verif/replays
+	if old, _ := filepath.Glob(filepath.Join(verifDir, "replays", id+"-*")); true {
+		for _, f := range old {
+			os.Remove(f)
+		}
+	}
+	for _, sg := range sigOrder {
+		a := bySig[sg]
+		if a.v.Replay == "" {
+			continue
+		}
+		dst := filepath.Join(verifDir, "replays", filepath.Base(a.v.Replay))
+		if b, err := os.ReadFile(a.v.Replay); err == nil {
+			if err := os.WriteFile(dst, b, 0o644); err == nil {
+				a.v.Replay = dst
+			}
+		}
+	}
 	knownHit := map[int]int{}
 	var unknown []*sigAgg
 	unstable := 0
@@ -576,32 +597,32 @@ func runCheck(id, tier string, seed uint64, workers, runs, ms int, replay, work 
 		"seed":        int64(seed & 0x7fffffffffffffff),
 		"level":       "exploration",
 		"coverage": map[string]any{
-			"evaluations":         tot.Evaluations,
-			"distinct_nontrivial": len(distinct),
-			"nontrivial_runs":     tot.Nontrivial,
-			"rule":                ruleText,
-			"samples":             samples,
-			"scheduling_steps":    tot.Steps,
-			"context_switches":    tot.Switches,
-			"simulated_time_s":    float64(tot.VirtNs) / 1e9,
-			"truncated_runs":      tot.Truncated,
-			"tasks_left_blocked_after_drain": tot.Leaked,
+			"evaluations":                           tot.Evaluations,
+			"distinct_nontrivial":                   len(distinct),
+			"nontrivial_runs":                       tot.Nontrivial,
+			"rule":                                  ruleText,
+			"samples":                               samples,
+			"scheduling_steps":                      tot.Steps,
+			"context_switches":                      tot.Switches,
+			"simulated_time_s":                      float64(tot.VirtNs) / 1e9,
+			"truncated_runs":                        tot.Truncated,
+			"tasks_left_blocked_after_drain":        tot.Leaked,
 			"bubbles_ended_with_blocked_goroutines": leakedBubbles,
-			"reach_probes":        tot.Probes,
-			"faults_fired":        tot.Faults,
-			"fault_kinds":         faultKinds,
-			"porcupine":           map[string]int{"ok": tot.PorcOK, "illegal": tot.PorcIllegal, "unknown_timeout": tot.PorcUnknown},
-			"runs_per_hour":       float64(tot.Evaluations) / wall * 3600,
-			"workers":             workers,
-			"worker_seeds":        fmt.Sprintf("run i of worker w uses splitmix(mix(%d, hash(%q), w, i))", seed, id),
-			"real_components":     real,
-			"stub_components":     stubs,
-			"determinism_probe":   fmt.Sprintf("%d runs x 3 fresh processes (GOMAXPROCS 1/4/16): identical event-log hashes", len(detHashes[0])),
-			"tree_fingerprint":    tree,
-			"build_s":             buildS,
-			"known_finding_lines": knownLines,
-			"violations_found":    violSummaries,
-			"race_build":          race,
+			"reach_probes":                          tot.Probes,
+			"faults_fired":                          tot.Faults,
+			"fault_kinds":                           faultKinds,
+			"porcupine":                             map[string]int{"ok": tot.PorcOK, "illegal": tot.PorcIllegal, "unknown_timeout": tot.PorcUnknown},
+			"runs_per_hour":                         float64(tot.Evaluations) / wall * 3600,
+			"workers":                               workers,
+			"worker_seeds":                          fmt.Sprintf("run i of worker w uses splitmix(mix(%d, hash(%q), w, i))", seed, id),
+			"real_components":                       real,
+			"stub_components":                       stubs,
+			"determinism_probe":                     fmt.Sprintf("%d runs x 3 fresh processes (GOMAXPROCS 1/4/16): identical event-log hashes", len(detHashes[0])),
+			"tree_fingerprint":                      tree,
+			"build_s":                               buildS,
+			"known_finding_lines":                   knownLines,
+			"violations_found":                      violSummaries,
+			"race_build":                            race,
 		},
 		"assumptions": assumptions,
 		"wall_s":      wall,
